@@ -93,9 +93,11 @@ pub fn dispatch(prop: &str, tier: Tier, replay: Option<String>) -> i32 {
 }
 
 /// Child-process entry points (sweeps that may abort the process).
-pub fn child(prop: &str, _tier: Tier, which: &str) -> i32 {
+pub fn child(prop: &str, tier: Tier, which: &str, rest: &[String]) -> i32 {
     match (prop, which) {
         ("C17", "hostile") => c17::child_hostile(),
+        ("C17", "sites") => c17::run_sites_in_this_process(tier, None),
+        ("C17", "one") => c17::child_one(tier, rest),
         _ => 2,
     }
 }
